@@ -10,6 +10,9 @@ LEVEL_TEXT += (" BLAKE2b and SipHash (E2 irsym): crypto_generichash(_blake2b) on
                "out-of-range output/key lengths must be refused.")
 E2_EQUIV = ["blake2b-ref-spec", "siphash-ref-spec"]
 E2_LIMB = ["poly1305-blocks-donna64"]
+LEVEL_TEXT += (" Poly1305 (donna64 unit): buffering, RFC 8439 padding, final-block flag, clamping, split independence and verify exactness by CBMC over an abstract block function; "
+               "poly1305_blocks == h <- (h + block + hibit) * r mod 2^130-5 for all accumulators, clamped keys and message bytes, 1..4 blocks, in E2 limb mode (integer polynomials + intervals, "
+               "no 64/128-bit wrap-around, congruence re-checked by z3); poly1305_finish == ((h mod p) + pad) mod 2^128 by CBMC.")
 TRUSTED = ["CBMC 6.11 + cvc5 1.0", "irsym LLVM-IR interpreter; BLAKE2b spec model validated against Python hashlib, SipHash against the paper's vector (development) and by structural agreement with the reference unit", "spec models in models/ (validated against FIPS/RFC vectors by bin/setup)",
            "composition: padding/chunking over an abstract compression function + compression function == spec => hash == spec"]
 ASSUMPTIONS = ["message lengths in the enumerated sets"]
@@ -96,6 +99,10 @@ def obligations(tier):
                           instrument=[["--replace-calls", "poly1305_blocks:cut_blocks"]], tier="quick" if q else "thorough", family="poly1305-buffering",
                           desc="Poly1305 one-shot and 3-chunk streaming feed exactly the RFC 8439 block sequence (padding, final flag) into the (abstract) block function; same tag; verify exact; key clamping",
                           bounds="all message/key/tag bytes; (len, split a, split b) enumerated"))
+    obs.append(Ob("poly1305-sse2-finalize", "C04/poly1305_sse2_fin.c", units=["sodium/utils.c", "crypto_verify/verify.c"], stubs=["misuse.c", "libc.c", "x86_builtins.c"],
+                  undefs=["HAVE_AMD64_ASM"], unwind=20, timeout=900, mem=6, nochecks=True, family="poly1305-finish",
+                  desc="SSE2 unit: poly1305_finish (lane combination, SIMD carry chain, 26->44-bit limbs, carry passes, conditional subtraction of p, pad) == (((lane0 + lane1) mod 2^130-5) + pad) mod 2^128 with r = 1",
+                  bounds="both accumulator lanes (10 limbs < 2^27) and the pad symbolic; key fixed to r = 1 (lane multiplication is the identity); pad addition through the unit's portable branch"))
     obs.append(Ob("poly1305-finish", "C04/poly1305_glue.c", units=["sodium/utils.c", "crypto_verify/verify.c"], stubs=["misuse.c", "libc.c", "x86_builtins.c"],
                   defs={"PART": 1, "LEN": 1}, unwind=20, timeout=900, nochecks=True, family="poly1305-finish",
                   desc="poly1305_finish == ((h mod 2^130-5) + pad) mod 2^128 for every partially reduced accumulator", bounds="limbs h0,h1,h2 < 2^46, pad 128 bits, all symbolic"))
